@@ -220,7 +220,7 @@ CHECKS["C14"] = dict(
     stages=[dict(harness="comp", variant="plain", require=["gz_partial_input_passes", "gz_finish_multipass", "xz_finish_multipass", "export_runs", "short_writes"]),
             dict(harness="comp", variant="asan", args=["--mode", "static-exit"], prefix="asan_", require=["static_exit_runs"], max_alloc_mb=512),   # destruction at exit() under ASan: use of an already destroyed function-local static is reported
             dict(kind="py", harness="decomp", tiers=("thorough",), prefix="py_")],
-    rule="stateless DFS over the (size, class)/rotate alphabet for 2 formats x 2 sink kinds; chunking sweep: 600 KiB (thorough: 4 MiB for gzip) written in chunks of one size, for text-like / incompressible / mixed-entropy data; end-to-end exports; a writer of static storage duration destroyed by exit() in a forked child (also under AddressSanitizer); environment deviation 'short write' (every write(2) transfers at most 1 / 7 / 1000 / 4096 / 65536 bytes) on two sequences per format and sink; non-trivial = at least one step; all distinct",
+    rule="stateless DFS over the (size, class) / rotate-to-new-name / rotate-onto-open-name alphabet for 2 formats x 2 sink kinds; chunking sweep: 600 KiB (thorough: 4 MiB for gzip) written in chunks of one size, for text-like / incompressible / mixed-entropy data; end-to-end exports; a writer of static storage duration destroyed by exit() in a forked child (also under AddressSanitizer); environment deviation 'short write' (every write(2) transfers at most 1 / 7 / 1000 / 4096 / 65536 bytes) on two sequences per format and sink; non-trivial = at least one step; all distinct",
     bound_quick="sequences of length <= 2 (29 steps alphabet) + 8 MiB single writes", bound_thorough="length <= 3 + single writes of 5, 6, 8, 16, 48 MiB",
     assumptions=["default RLIMIT_STACK (8 MiB)"],
 )
